@@ -39,9 +39,12 @@ const (
 
 	VIface  = "iface" // comparable struct type whose interface{} field holds an uncomparable slice
 	VPtr    = "ptr"   // pointer values: equal by content, never by identity (a fresh pointer per call)
+	// VNil: set-style use - every value is nil and the loader is given ValuesLike: nil (with
+	// UnmarshalerUsesRegisteredTypes, as the repository's TestNilValues does); binary format only
+	VNil = "nil"
 )
 
-var ValKinds = []string{VInt, VString, VBytes, VStruct, VLong, VIface, VPtr}
+var ValKinds = []string{VInt, VString, VBytes, VStruct, VLong, VIface, VPtr, VNil}
 
 // SI is a struct value whose static type is comparable but whose dynamic contents are not.
 type SI struct {
@@ -345,6 +348,8 @@ func (c Config) ZeroVal() interface{} {
 		return SI{}
 	case VPtr:
 		return (*int)(nil)
+	case VNil:
+		return nil
 	}
 	panic("bad value kind " + c.Val)
 }
@@ -354,7 +359,13 @@ func (c Config) MakeVal(n int) interface{} {
 	switch c.Val {
 	case VInt:
 		return n
+	case VNil:
+		return nil
 	case VString:
+		if n%4 == 3 {
+			// characters that JSON escapes (<, >, &), quotes and a non-ASCII rune
+			return fmt.Sprintf("v%d<&>\"'é", n)
+		}
 		return fmt.Sprintf("v%d", n)
 	case VLong:
 		if n < 0 {
@@ -507,6 +518,9 @@ func (c Config) buildPool() []interface{} {
 			}
 			return []byte{byte(i), byte(i >> 8), byte(i >> 16), 0xff}
 		case KStruct:
+			if i%13 == 5 {
+				return SK{A: i % 7, B: fmt.Sprintf("b<%d>&", i)}
+			}
 			return SK{A: i % 7, B: fmt.Sprintf("b%d", i)}
 		}
 		panic("bad key kind")
@@ -522,6 +536,7 @@ func (c Config) buildPool() []interface{} {
 			copy(b, fmt.Sprintf("long%d-", l))
 			out = append(out, string(b))
 		}
+		out = append(out, "a<b>&c", "q\"uote'é")
 	}
 	want := map[uint8]int{0: 22, 1: 10, 2: 5, 3: 3}
 	total := 0
